@@ -47,6 +47,8 @@ class Pol(syn_models.SynPolicy):
     def len_bounds(self, I, st, name, t):
         if name.endswith(".attrs") or name == "x*":
             return (0, self.M)
+        if name.endswith(".meta.path.segments"):
+            return (1, 2)      # `#[my(..)]` and `#[tool::my(..)]`: a qualified path never equals a listed name
         if name.endswith(".segments"):
             return (1, 1)
         if name.endswith(".parsed.Ok.0"):
@@ -62,8 +64,8 @@ def attr_class(ck, l, base, names, fwd):
     var = base + ".meta.path.segments[0].ident.sym"
     f = (l.extra.get("sfacts") or {}).get(var)
     name = f[1] if (f and f != "complex" and f[0] == "eq") else None
-    if lead == 1:
-        name = None      # `:: name` never equals a plain attribute name
+    if lead == 1 or l.decisions.get(base + ".meta.path.segments#len", 1) != 1:
+        name = None      # `:: name` and `tool :: name` never equal a plain attribute name
     sel = name if name in names else None
     if fwd == "all":
         forwarded = sel is None
@@ -198,8 +200,14 @@ def job(ck, prog, natbin, rn, M, K, colon, quick):
         for sk, name, base in shape:
             lead = "::" if l.decisions.get(base + ".meta.path.leading_colon#d") == 1 else ""
             if name is None:
-                uniq[0] += 1
-                name = model_str(mdl, z3.String(base + ".meta.path.segments[0].ident.sym"), "zq%d" % uniq[0])
+                nseg = l.decisions.get(base + ".meta.path.segments#len", 1)
+                segs = []
+                for j in range(nseg):
+                    uniq[0] += 1
+                    segs.append(model_str(mdl, z3.String("%s.meta.path.segments[%d].ident.sym" % (base, j)), "zq%d" % uniq[0]))
+                name = "::".join(segs)
+                if nseg > 1:
+                    ck.reach("qualified")
                 if name in spec["names"] and not lead:
                     name = "zq%d" % uniq[0]
             form = l.decisions.get(base + ".meta#d")
@@ -267,9 +275,9 @@ def prepare(ck):
     if not quick:
         cfgs = [("D0", 3, 1, True), ("D1", 3, 1, False), ("D2", 2, 2, False), ("A1", 3, 1, False), ("F1", 2, 1, True), ("T1", 2, 1, True)]
     ck.bounds = {"receivers": [c[0] for c in cfgs], "attributes_per_element": "0..M, M = %s" % {c[0]: c[1] for c in cfgs},
-                 "items_per_attribute": "0..K, K = %s" % {c[0]: c[2] for c in cfgs}, "attribute_names": "unbounded strings, single segment",
+                 "items_per_attribute": "0..K, K = %s" % {c[0]: c[2] for c in cfgs}, "attribute_names": "unbounded strings, 1..2 path segments",
                  "leading_colon_on_attribute_paths": "thorough only"}
-    ck.outside = ["multi-segment attribute names (the generated match compares the printed token stream: stated limitation)",
+    ck.outside = ["attribute paths of more than two segments or with generic arguments (syn's Meta parser produces none)",
                   "FromVariant (same generated extractor; body conversion is C16)", "more attributes / items than the bounds"]
     ck.assumptions = ["attribute bodies parse to an uninterpreted outcome (error or item list)", "leaf conversions are the opaque Opq conversion",
                       "TokenStream printing of a path follows proc-macro2's fallback printer (`a :: b`)"]
@@ -285,7 +293,7 @@ def prepare(ck):
 def main():
     ck = Check("C08")
     ck.run_jobs(prepare(ck))
-    ck.require_reached(["ok", "err", "split:2", "split:1", "forwarded:1"])
+    ck.require_reached(["ok", "err", "split:2", "split:1", "forwarded:1", "qualified"])
     ck.finish()
 
 
